@@ -18,6 +18,10 @@ def k(unit):
     return ("kani", unit, {})
 
 
+def e(unit):
+    return ("eval", unit, {})
+
+
 SIMD_ASSUMPTION = ("SIMD kernels (sse2/sse41/avx2/avx512/neon: assembly, C and Rust intrinsics) are ASSUMED to equal "
                    "the specification's compression function with the frames of their signatures (this is property "
                    "C05, not decidable by this family here); proved unconditionally for Platform::Portable")
@@ -26,32 +30,28 @@ TYPE_ASSUMPTION = ("Rust's type system for what it guarantees by construction: &
 EXTRACTION = ("the extraction rules R1-R19 of DESIGN.md 3.1 (token-level rewrites applied to the real source on every "
               "run) preserve meaning; `use` declarations, attributes and visibility are dropped")
 
-PROPS = {
-    "C01": {
-        "level": "proof",
-        "design_ref": "4.1",
-        "technique": "Verus function contracts against a spec-function transcription of the BLAKE3 paper",
-        "level_text": "unbounded deductive proof (Verus/z3) that the real portable compression function and the "
-                      "byte/word helpers equal the paper's G/round/permutation definition for all arguments",
-        "level_note": "trusted: Verus+z3, extraction rules, std intrinsics (rotate_right, from/to_le_bytes), SIMD "
-                      "kernels assumed (C05)",
-        "units": {"quick": [v("compress")], "thorough": []},
-        "explanation": "Verus discharges, for all inputs, the postconditions that tie the real (mechanically "
-                       "extracted) functions of src/lib.rs, src/portable.rs, src/platform.rs, src/hazmat.rs to a "
-                       "BLAKE3 specification written as spec functions from the paper; every arithmetic operation, "
-                       "index, slice, unwrap, ArrayVec::push and (debug_)assert in those functions is an obligation.",
-        "uncovered": [],
-        "assumptions": [SIMD_ASSUMPTION, EXTRACTION],
-    },
-}
+PROPS = {}
+NOT_APPLICABLE = {}
+import glob as _glob
+import importlib.util as _ilu
+import os as _os
 
-NOT_APPLICABLE = {
+_here = _os.path.dirname(_os.path.abspath(__file__))
+for _f in sorted(_glob.glob(_os.path.join(_here, "propdefs", "*.py"))):
+    _s = _ilu.spec_from_file_location("propdefs_" + _os.path.basename(_f)[:-3], _f)
+    _m = _ilu.module_from_spec(_s)
+    for _n in ("v", "c", "k", "e", "SIMD_ASSUMPTION", "TYPE_ASSUMPTION", "EXTRACTION"):
+        setattr(_m, _n, globals()[_n])
+    _s.loader.exec_module(_m)
+    PROPS.update(getattr(_m, "PROPS", {}))
+
+NOT_APPLICABLE.update({
     "C05": "SIMD kernels == portable kernel: no installed contract verifier reaches them (assembly has no front end; "
            "CBMC crashes on the C vector intrinsics; Kani's ARX equivalence query did not terminate in 25 min on four "
            "solvers). It is the stated assumption under C01-C04/C09.",
     "C12": "b3sum end-to-end behaviour is a property of a process (argv, stdin/stdout text, exit status, file system) "
            "of a binary that cannot be built offline unmodified; function contracts reach only fragments, which are "
            "decided under C03/C11/C13/C14.",
-}
+})
 for _p in ["C02", "C03", "C04", "C06", "C07", "C08", "C09", "C10", "C11", "C13", "C14", "C15", "C16", "C17", "C18"]:
     NOT_APPLICABLE.setdefault(_p, "check not built yet (work in progress; see DESIGN.md for the plan)")
